@@ -360,6 +360,25 @@ def run_case(case: dict) -> dict:
             if len(examples) != len(written):
                 violations.append({"key": f"example-count/{fmt}/{reader}", "msg": f"{len(examples)} read, {len(written)} written"})
                 continue
+            # the same values must come back when the pass is shuffled and shards are read side by side (several
+            # shard decoders of one reader alive at once): compared with this reader's own ordered pass, so that
+            # whatever the ordered comparison below reports is not reported twice
+            def fingerprint(example):
+                return tuple((a["name"],) + read_bytes(example[a["name"]], a["dtype"], fmt)
+                             for a in case["attrs"] if a["name"] in example)
+            shuffled_kwargs = {"file_parallelism": prng.choice([2, 3])} if "file_parallelism" in readers.ACCEPTS[reader] else {}
+            try:
+                shuffled = readers.read(Dataset(dataset.path), reader, "train", shuffle=prng.choice([2, 5]), repeat=False,
+                                        **shuffled_kwargs)
+                obs["shuffled_passes_compared"] += 1
+                if Counter(map(fingerprint, shuffled)) != Counter(map(fingerprint, examples)):
+                    violations.append({"key": f"shuffled-pass-values-differ/{fmt}/{reader}",
+                                       "msg": f"{fmt}/{comp or 'none'} attrs={case['attrs']} {shuffled_kwargs}: the shuffled "
+                                              f"pass returned {len(shuffled)} examples whose values are not those of the "
+                                              f"ordered pass ({len(examples)})"})
+            except Exception as exc:  # pylint: disable=broad-exception-caught
+                violations.append({"key": f"shuffled-pass-raised/{fmt}/{reader}",
+                                   "msg": f"{fmt}/{comp or 'none'} attrs={case['attrs']}: {type(exc).__name__}: {str(exc)[:200]}"})
             for record, example in zip(written, examples):
                 for a in case["attrs"]:
                     name, dtype = a["name"], a["dtype"]
